@@ -103,8 +103,8 @@ class Engine:
             self.memo_misses += 1
             return self.memo[key]
 
-    def cold(self, module: str, func: str, *args, **kw):
-        return cold_call(module, func, *args, hashseed=self.cold_seed, **kw)
+    def cold(self, module: str, func: str, *args, hashseed=None, **kw):
+        return cold_call(module, func, *args, hashseed=self.cold_seed if hashseed is None else hashseed, **kw)
 
     def close(self):
         for s in self.slots:
